@@ -5,7 +5,8 @@
 From Coq Require Import String.
 From Coq Require Import List Arith ZArith.
 Import ListNotations.
-From YP Require Import Base.Str Term.Term Unify.Unify Unify.UnifyGen Engine.GenMachine Engine.Restore Engine.RunGen.
+From YP Require Import Base.Str Term.Term Unify.Unify Unify.UnifyGen Lang.Ast Comp.IR Comp.CompileClause Sem.Machine
+  Engine.GenMachine Engine.Restore Engine.RunGen Engine.IRMachine Engine.QueryFacts Engine.Refine Engine.RefineCompiled Engine.RunMachine.
 
 (* A unification generator created under ANY heap h and driven by ANY sequence of
    __next__ / close() (= drop) operations:
@@ -54,12 +55,12 @@ Print Assumptions C03_unify_gen_matches_unify.
    raised) gives back h0. *)
 Theorem C03_frame_next_restores :
   forall (L X E P : Type) (mkleaf : X -> heap -> L) (lnext : nat -> heap -> L -> option (heap * L * res))
-         (lclose : heap -> L -> heap) (prog : P -> code X E P * E) (LInv : heap -> L -> heap -> Prop),
+         (lclose : heap -> L -> heap) (prog : P -> code X E P * E) (gho : E -> nat) (LInv : heap -> L -> heap -> Prop),
   (forall x h, LInv h (mkleaf x h) h) ->
   (forall n h0 l hc h' l' r, LInv h0 l hc -> lnext n hc l = Some (h', l', r) -> LInv h0 l' h' /\ (r = RStop -> h' = h0)) ->
   (forall h0 l hc, LInv h0 l hc -> lclose hc l = h0) ->
   forall n d h0 it h h' it' r,
-    Inv LInv h0 it h -> inext mkleaf lnext lclose prog n d h it = Some (h', it', r) ->
+    Inv LInv h0 it h -> inext mkleaf lnext lclose prog gho n d h it = Some (h', it', r) ->
     Inv LInv h0 it' h' /\ (r = RStop -> h' = h0) /\ iclose lclose h' it' = h0.
 Proof. exact frame_next_restores. Qed.
 Print Assumptions C03_frame_next_restores.
@@ -69,13 +70,13 @@ Print Assumptions C03_frame_next_restores.
    the heap is h0 when the exception arrives at the consumer *)
 Theorem C03_throw_restores :
   forall (L X E P : Type) (mkleaf : X -> heap -> L) (lnext : nat -> heap -> L -> option (heap * L * res))
-         (lclose : heap -> L -> heap) (prog : P -> code X E P * E) (LInv : heap -> L -> heap -> Prop),
+         (lclose : heap -> L -> heap) (prog : P -> code X E P * E) (gho : E -> nat) (LInv : heap -> L -> heap -> Prop),
   (forall x h, LInv h (mkleaf x h) h) ->
   (forall n h0 l hc h' l' r, LInv h0 l hc -> lnext n hc l = Some (h', l', r) -> LInv h0 l' h' /\ (r = RStop -> h' = h0)) ->
   (forall h0 l hc, LInv h0 l hc -> lclose hc l = h0) ->
   forall n d h0 it h h' it' r,
     Inv LInv h0 it h -> is_frame it -> d <> 0 ->
-    inext mkleaf lnext lclose prog n d h it = Some (h', it', r) -> r <> RYield -> h' = h0 /\ it' = IDone.
+    inext mkleaf lnext lclose prog gho n d h it = Some (h', it', r) -> r <> RYield -> h' = h0 /\ it' = IDone.
 Proof. exact throw_restores. Qed.
 Print Assumptions C03_throw_restores.
 
@@ -83,21 +84,122 @@ Print Assumptions C03_throw_restores.
    to k answers, however the last __next__ ended (another answer: r = RYield, exhausted: RStop,
    exception: RRaise): closing / dropping the generator gives back h; if it did not end in an
    answer the heap already is h; at every answer the heap is h plus newer bindings on top. *)
-Theorem C03_query_restores : forall (E P : Type) (prog : P -> code (term * term) E P * E) n d k h c e hf itf ys r,
-  nexts umkleaf ulnext ulclose prog n d k h (IFresh c e) = Some (hf, itf, ys, r) ->
-  iclose ulclose hf itf = h /\ (r <> RYield -> d <> 0 -> hf = h)
+Theorem C03_query_restores : forall (E P : Type) (prog : P -> code (term * term) E P * E) (gho : E -> nat) n d k h c e hf itf ys r,
+  nexts umkleaf ulnext ulclose prog gho n d k h (IFresh c e) = Some (hf, itf, ys, r) ->
+  iclose ulclose hf itf = h /\ (r <> RYield -> hf = h)
   /\ Forall (fun y => exists nw, y = nw ++ h) ys.
 Proof. exact query_restores_unify. Qed.
 Print Assumptions C03_query_restores.
 
 (* "re-running a side-effect-free query on the same engine and the same variables gives the same
    answer sequence again" *)
-Theorem C03_rerun_same : forall (E P : Type) (prog : P -> code (term * term) E P * E) n d k h c e hf itf ys r,
-  d <> 0 -> r <> RYield ->
-  nexts umkleaf ulnext ulclose prog n d k h (IFresh c e) = Some (hf, itf, ys, r) ->
-  nexts umkleaf ulnext ulclose prog n d k hf (IFresh c e) = Some (hf, itf, ys, r).
+Theorem C03_rerun_same : forall (E P : Type) (prog : P -> code (term * term) E P * E) (gho : E -> nat) n d k h c e hf itf ys r,
+  r <> RYield ->
+  nexts umkleaf ulnext ulclose prog gho n d k h (IFresh c e) = Some (hf, itf, ys, r) ->
+  nexts umkleaf ulnext ulclose prog gho n d k hf (IFresh c e) = Some (hf, itf, ys, r).
 Proof. exact rerun_same_unify. Qed.
 Print Assumptions C03_rerun_same.
+
+(* the consumer throws an exception into the generator object (suspended at any answer, or not
+   yet started): it comes back to the consumer with the heap of creation restored *)
+Theorem C03_consumer_throw_restores :
+  forall (L X E P : Type) (lclose : heap -> L -> heap) (LInv : heap -> L -> heap -> Prop),
+  (forall h0 l hc, LInv h0 l hc -> lclose hc l = h0) ->
+  forall h0 (it : iter L X E P) hc, Inv LInv h0 it hc -> ithrow lclose hc it = (h0, IDone, RRaise).
+Proof. exact consumer_throw_restores. Qed.
+Print Assumptions C03_consumer_throw_restores.
+
+(* ANY consumer: an arbitrary sequence of __next__ / close() (= drop) / throw() on one generator
+   object (each call under the heap the previous one left): it stays consistent with the heap h0 of
+   its creation - closing or dropping it at the end gives back h0 - and directly after a close or a
+   throw the heap is h0 *)
+Theorem C03_any_consumer_restores :
+  forall (L X E P : Type) (mkleaf : X -> heap -> L) (lnext : nat -> heap -> L -> option (heap * L * res))
+         (lclose : heap -> L -> heap) (prog : P -> code X E P * E) (gho : E -> nat) (LInv : heap -> L -> heap -> Prop),
+  (forall x h, LInv h (mkleaf x h) h) ->
+  (forall n h0 l hc h' l' r, LInv h0 l hc -> lnext n hc l = Some (h', l', r) -> LInv h0 l' h' /\ (r = RStop -> h' = h0)) ->
+  (forall h0 l hc, LInv h0 l hc -> lclose hc l = h0) ->
+  forall n d ops h0 it h hf itf rs,
+    Inv LInv h0 it h -> fdrive mkleaf lnext lclose prog gho n d h it ops = Some (hf, itf, rs) ->
+    Inv LInv h0 itf hf /\ iclose lclose hf itf = h0 /\
+    (match rev ops with (FClose | FThrow) :: _ => hf = h0 | _ => True end).
+Proof. exact fdrive_restores. Qed.
+Print Assumptions C03_any_consumer_restores.
+
+(* THE ENGINE RUNNING COMPILED CODE (IRMachine.v): for every IR program (every compiled program),
+   every fact database, every set of registered Python predicates written as ARBITRARY machine code
+   (they may raise at any step), the builtins =, \=, call/N, once/1, findall/3 as frames, every
+   query, heap, fuel, recursion limit d and abandonment point k: close()/drop gives back h, an
+   exception thrown in by the consumer comes back with h restored, exhaustion or an exception
+   coming out leaves h, and every answer only adds bindings on top of h *)
+Theorem C03_compiled_query_restores :
+  forall (ir : ir_program) (facts : str -> nat -> list fact) (user : str -> list term -> option (code lx fr callp * fr))
+         n d k h name args nx hf itf ys r,
+  m_nexts ir facts user n d k h (m_query ir facts user name args nx) = Some (hf, itf, ys, r) ->
+  m_iclose hf itf = h
+  /\ ithrow lclose hf itf = (h, IDone, RRaise)
+  /\ (r <> RYield -> hf = h)
+  /\ Forall (fun y => exists nw, y = nw ++ h) ys.
+Proof. exact compiled_query_restores. Qed.
+Print Assumptions C03_compiled_query_restores.
+
+(* evaluate_bounded (a consumer that leaves its loop after k answers because the projection
+   function raises, or because the query ends / raises under the lowered recursion limit d, and
+   closes the query in its finally): every variable is restored when it returns *)
+Theorem C03_bounded_consumer_restores :
+  forall (ir : ir_program) (facts : str -> nat -> list fact) (user : str -> list term -> option (code lx fr callp * fr))
+         n d k h name args nx hf ys,
+  bounded_m ir facts user n d k h name args nx = Some (hf, ys) -> hf = h.
+Proof. exact bounded_restores. Qed.
+Print Assumptions C03_bounded_consumer_restores.
+
+(* machine_refines_irsem: "the bindings visible at each answer are exactly that answer's".
+   The small-step machine with destructive bindings and the big-step semantics of C01/C05/C06
+   (Sem.Machine.query: lists of persistent answer stores) are the same object: for every compiled
+   program, query, well-formed heap, recursion limit d and ABANDONMENT POINT k, the generator
+   object resumed at most k times yields exactly the first k answer stores of the big-step
+   semantics, in order; past the last answer it ends by StopIteration / by an exception exactly as
+   the big-step semantics says, and the heap is the initial one. *)
+Theorem C03_machine_refines_irsem : forall p ir, compile_program p = Some ir ->
+  forall d name args nx h k, wf h ->
+  exists N hf itf, forall n, N <= n ->
+    m_nexts ir nofacts nouser n d k h (m_query ir nofacts nouser name args nx) =
+    Some (hf, itf, map sto (firstn k (fst (query d ir name args (mkst h nx)))),
+          if Nat.leb k (length (fst (query d ir name args (mkst h nx)))) then RYield
+          else rend (snd (query d ir name args (mkst h nx))))
+    /\ (length (fst (query d ir name args (mkst h nx))) < k -> hf = h).
+Proof. exact compiled_machine_refines_irsem. Qed.
+Print Assumptions C03_machine_refines_irsem.
+
+(* the same for whatever fuel the machine returns a value at; consequence: a query that is run
+   again on the heap it left (= the heap before, by the theorems above) gives the same answer
+   sequence again - it is a function of the program, the query and that heap alone *)
+Theorem C03_machine_refines_irsem_fuel : forall p ir, compile_program p = Some ir ->
+  forall d name args nx h k n hf itf ys r, wf h ->
+  m_nexts ir nofacts nouser n d k h (m_query ir nofacts nouser name args nx) = Some (hf, itf, ys, r) ->
+  ys = map sto (firstn k (fst (query d ir name args (mkst h nx)))) /\
+  r = (if Nat.leb k (length (fst (query d ir name args (mkst h nx)))) then RYield
+       else rend (snd (query d ir name args (mkst h nx)))).
+Proof. exact compiled_machine_refines_irsem_fuel. Qed.
+Print Assumptions C03_machine_refines_irsem_fuel.
+
+(* ... and with ANY database of dynamic facts: the big-step side is QueryFacts.queryF = Sem.Machine.query
+   with the facts of name/arity tried first, each matched against a copy with new variables
+   (queryF_nofacts: with an empty database it is Sem.Machine.query) *)
+Theorem C03_machine_refines_facts : forall p ir, compile_program p = Some ir ->
+  forall (DB : str -> nat -> list fact) d name args nx h k, wf h ->
+  exists N hf itf, forall n, N <= n ->
+    m_nexts ir DB nouser n d k h (m_query ir DB nouser name args nx) =
+    Some (hf, itf, map sto (firstn k (fst (queryF ir DB d name args (mkst h nx)))),
+          if Nat.leb k (length (fst (queryF ir DB d name args (mkst h nx)))) then RYield
+          else rend (snd (queryF ir DB d name args (mkst h nx))))
+    /\ (length (fst (queryF ir DB d name args (mkst h nx))) < k -> hf = h).
+Proof. exact compiled_machine_refines_facts. Qed.
+Print Assumptions C03_machine_refines_facts.
+
+Theorem C03_queryF_nofacts : forall p n name args s, queryF p (fun _ _ => []) n name args s = query n p name args s.
+Proof. exact queryF_nofacts. Qed.
+Print Assumptions C03_queryF_nofacts.
 
 (* non-vacuity: a query three frames deep yields an answer with two new bindings on top of a
    non-empty heap, and asking for the next answer makes a user predicate raise; the heap is then
@@ -105,3 +207,12 @@ Print Assumptions C03_rerun_same.
 Example C03_nonvacuous :
   ex_run 2 = Some ([(7, A "keep")], IDone, [[(2, TFun (d "f") [A "a"]); (1, A "a"); (7, A "keep")]], RRaise).
 Proof. exact ex_raise. Qed.
+
+(* non-vacuity of the refinement: r(X,L) :- mem(X,[a,b,c]), findall(Y, mem(Y,[X,d]), L), \+ X = b.
+   compiled by the model compiler; the machine yields two answers (X = a, X = c) whose stores are
+   those of the big-step semantics, then stops with the empty heap *)
+Example C03_refines_nonvacuous : refine_example = true.
+Proof. vm_compute. reflexivity. Qed.
+
+Example C03_refines_facts_nonvacuous : refine_example_facts = true.
+Proof. vm_compute. reflexivity. Qed.
